@@ -168,7 +168,9 @@ inline CELER_FUNCTION Array<T, 3> from_spherical(T costheta, T phi)
 {
     CELER_EXPECT(costheta >= -1 && costheta <= 1);
 
-    T const sintheta = std::sqrt(1 - costheta * costheta);
+    // The caller's cosine can exceed unity by roundoff: never take the root of
+    // a negative number
+    T const sintheta = std::sqrt(celeritas::max<T>(0, 1 - costheta * costheta));
     return {sintheta * std::cos(phi), sintheta * std::sin(phi), costheta};
 }
 
